@@ -44,7 +44,7 @@ RULE = (
     "Non-trivial CLI case = >= 1 printed detection and >= 3 non-default options; formatter case = not at a default format."
 )
 MUST_HIT = ["input_stdin", "input_wav", "input_raw", "input_noext_f_raw", "opt_u_int", "opt_u_mix", "opt_M", "opt_L",
-            "opt_q", "opt_j_without_O", "opt_O", "opt_o", "opt_j", "fmt_S", "fmt_I", "fmt_hmsi", "fmt_unknown",
+            "opt_q", "opt_j_without_O", "opt_O", "opt_O_raw", "opt_o", "opt_j", "fmt_S", "fmt_I", "fmt_hmsi", "fmt_unknown",
             "cli_defaults_n_m_s", "default_n", "default_m", "default_s", "default_a", "default_e"]
 ASSUMPTIONS = [
     "-E, -C, -p/--save-image, -I/-F and non wav/raw formats cannot run in this sandbox (no pyaudio/pydub/ffmpeg/sox)",
@@ -278,7 +278,8 @@ def check_cli(case, rec):
             argv += ["-o", o_tmpl]
             classes.add("opt_o")
         if opts.get("O"):
-            O_path = os.path.join(d, "stream.wav")
+            # .raw: the stream is recorded to a temporary wav and exported headerless at the end
+            O_path = os.path.join(d, "stream.raw" if opts.get("O_raw") and opts.get("j") is None else "stream.wav")
             argv += ["-O", O_path]
         jsil = None
         if opts.get("j") is not None:
@@ -337,7 +338,21 @@ def check_cli(case, rec):
                 raise Violation(f"auditok {shown}\nprinted {out!r}\nexpected {want_first!r}", case)
         exp = [(i, bytes(r), r.start, r.end) for i, r in enumerate(regions, 1)]
         bps = sw * ch
-        if O_path is not None:
+        if O_path is not None and O_path.endswith(".raw"):
+            classes.add("opt_O_raw")
+            if not os.path.exists(O_path):
+                raise Violation("-O stream.raw was not written", case)
+            with open(O_path, "rb") as fp:
+                frames = fp.read()
+            if frames != vis:
+                raise Violation(f"-O raw file holds {len(frames) // bps} samples, the input has {len(vis) // bps}", case)
+            for extra in ("stream.raw.wav",):
+                # the temporary wav may stay until the worker object is collected; not judged
+                try:
+                    os.remove(os.path.join(d, extra))
+                except OSError:
+                    pass
+        elif O_path is not None:
             try:
                 params, frames = pipeline.read_wav(O_path)
             except Exception as e:  # noqa: BLE001
@@ -356,7 +371,7 @@ def check_cli(case, rec):
                     raise Violation(f"-j file holds {len(frames) // bps} samples, expected {len(cands[0]) // bps}", case)
         if o_tmpl is not None:
             want_files = {o_tmpl.format(id=i, start=s, end=e, duration=len(b) / bps / sr): b for i, b, s, e in exp}
-            have = {os.path.join(d, f) for f in os.listdir(d)} - {O_path, os.path.join(d, "in.wav"),
+            have = {os.path.join(d, f) for f in os.listdir(d)} - {O_path, os.path.join(d, "stream.raw.wav"), os.path.join(d, "in.wav"),
                                                                    os.path.join(d, "in.raw"), os.path.join(d, "in")}
             if have != set(want_files):
                 raise Violation(f"-o wrote {sorted(map(os.path.basename, have))}, expected "
@@ -456,6 +471,7 @@ def explicit_cases():
         cli(input="stdin", opts={"O": True, "j": [3, 0.25], "M": [21, 0.25]}),
         cli(input="wav", opts={"j": [2, 0]}),
         cli(input="wav", opts={"q": True, "L": True, "o": "r{id}"}),
+        cli(input="raw", opts={"O": True, "O_raw": True, "o": "r{id}"}),
         cli(input="raw", audio=dict(a, uc=1), opts={"L": True, "printf": "{timestamp} {id}", "explicit_fmt": True}),
         cli(input="stdin", audio=dict(a, uc="mix"), win=[1, 3, 0, True, True], opts={"time_format": "%i ms %s s %m m %h h"}),
         cli(input="wav", opts={"time_format": "%h:%M"}),
@@ -555,6 +571,7 @@ def cli_strategy(draw, maxwin=20):
     r = draw(st.integers(0, 5))
     if r in (1, 2, 3):
         o["O"] = True
+        o["O_raw"] = draw(st.integers(0, 3)) == 0
     if r in (2, 4):
         o["j"] = [draw(st.integers(0, 5)), draw(st.sampled_from([0, 0.25, 0.75]))]
     if draw(st.booleans()):
